@@ -435,11 +435,14 @@ class C05(Prop):
         nrand = 6000 if quick else 60000
         for _ in range(nrand):
             out.append(self._random_case(rng))
+        for _ in range(nrand // 6):
+            out.append(self._random_case(rng, wide=True))
         return out
 
-    def _random_case(self, rng):
-        size = rng.randint(1, 4)
-        nsubj = rng.randint(1, 3)
+    def _random_case(self, rng, wide=False):
+        # wide: many inners (queues, counters and inline capacities beyond the small ranges), long inner streams
+        size = rng.randint(6, 9) if wide else rng.randint(1, 4)     # value ranges of the inners stay disjoint up to 9 x 9
+        nsubj = rng.randint(2, 5) if wide else rng.randint(1, 3)
         inners = []
         err = rng.random() < 0.2
         for k in range(size):
@@ -448,8 +451,8 @@ class C05(Prop):
                 inners.append(hot(rng.randrange(nsubj)))
             else:
                 fin = rng.choice(["c", "c", "c", "-"] + ([["e", str(rng.randint(1, 9))]] if err else []))
-                inners.append(cold(k, rng.randint(0, 3), fin))
-        limit = rng.choice([1, 1, 2, 2, 3, 4, 5, "inf", "concat", "flatten", 0])
+                inners.append(cold(k, rng.randint(0, 9) if wide else rng.randint(0, 3), fin))
+        limit = rng.choice([1, 1, 2, 2, 3, 4, 5, "inf", "concat", "flatten", 0] + ([7, 9, 12] if wide else []))
         via = None
         r = rng.random()
         if r < 0.15:
@@ -459,7 +462,7 @@ class C05(Prop):
         # outer script: mostly each inner once in order, sometimes repeats / shuffles
         ks = list(range(size))
         if rng.random() < 0.3:
-            ks = [rng.randrange(size) for _ in range(rng.randint(1, 5))]
+            ks = [rng.randrange(size) for _ in range(rng.randint(1, 5) + (size if wide else 0))]
         outer = [["outer", ["o", str(k)]] for k in ks]
         r = rng.random()
         if r < 0.75:
@@ -471,7 +474,7 @@ class C05(Prop):
         timelines = []
         for j in range(nsubj):
             term = rng.choice(["c", "c", "c", None] + ([["e", str(rng.randint(1, 9))]] if err else []))
-            tl = hot_timeline(j, rng.randint(0, 3), term)
+            tl = hot_timeline(j, rng.randint(0, 12) if wide else rng.randint(0, 3), term)
             if rng.random() < 0.1:   # post-terminal
                 tl += hot_timeline(j, 1, rng.choice(["c", None]), base=50)
             timelines.append(tl)
@@ -479,7 +482,7 @@ class C05(Prop):
         if rng.random() < 0.08:
             evs.insert(rng.randrange(len(evs) + 1), ["unsub"])
         flavor = "threads" if rng.random() < 0.4 else "local"
-        return mk_case(limit, inners, evs, flavor, via=via, kind="random")
+        return mk_case(limit, inners, evs, flavor, via=via, kind="wide" if wide else "random")
 
     # -------------------------------------------------------------- oracle
     def oracle(self, case, lines, model_lines=None):
